@@ -75,14 +75,39 @@ Proof.
 Qed.
 
 (* ---------------------------------------------------------------- one add() call *)
+(* once a rate has been measured the first sample is older than the clock, so a
+   later rate() of None means that the window is empty *)
+Definition init_flag_ok (s : rbe) (smp : list sample) (last : option Z) : Prop :=
+  incoming_init s = true ->
+  smp = [] \/ exists f l, oldest smp = Some f /\ last = Some l /\ f < l.
+
 Definition RInv0 (s : rbe) (smp : list sample) (last : option Z) : Prop :=
   Inv (incoming s) smp last /\ window_size (incoming s) = 1000 /\ scale (incoming s) = 8000 /\
-  AInv0 (control s).
+  AInv0 (control s) /\ init_flag_ok s smp last.
 
 Lemma RInv0_init : RInv0 rbe_init [] None.
 Proof.
   unfold RInv0, rbe_init; cbn [incoming control]. split; [apply Inv_init; lia|].
-  split; [reflexivity|]. split; [reflexivity|apply AInv0_init].
+  split; [reflexivity|]. split; [reflexivity|]. split; [apply AInv0_init|]. intros _. now left.
+Qed.
+
+Lemma rate_spec_some_old w sc smp now x :
+  0 < w -> rate_spec w sc smp now = Some x -> exists f, oldest smp = Some f /\ f < now.
+Proof.
+  intros Hw. unfold rate_spec. destruct (oldest smp) as [f|]; [|discriminate].
+  destruct (0 <? cnt _ smp); cbn [andb]; [|discriminate].
+  destruct (Z.ltb_spec 1 (now - Z.max f (now - w + 1) + 1)); [|discriminate].
+  intros _. exists f. split; [reflexivity|lia].
+Qed.
+
+Lemma rate_spec_none_empty w sc smp now f :
+  oldest smp = Some f -> f < now -> 1 < w -> rate_spec w sc smp now = None ->
+  forall t v, In (t, v) smp -> in_window w now t = false.
+Proof.
+  intros Hf Hlt Hw. unfold rate_spec. rewrite Hf.
+  destruct (Z.ltb_spec 0 (cnt (in_window w now) smp)) as [Hc|Hc]; cbn [andb].
+  - destruct (Z.ltb_spec 1 (now - Z.max f (now - w + 1) + 1)); [discriminate|lia].
+  - intros _. apply cnt_zero_all. pose proof (cnt_nonneg (in_window w now) smp). lia.
 Qed.
 
 Definition est_out (s' : rbe) (r : option Z) : option (Z * list Z) :=
@@ -95,12 +120,15 @@ Lemma rbe_add_ok s smp last a :
     keys (ssrcs s') = note (keys (ssrcs s)) (a_ssrc a) /\
     (values_nonneg smp -> 0 <= a_size a ->
      values_nonneg smp' /\ vsum_all smp' <= vsum_all smp + a_size a) /\
+    (smp' = (a_time a, a_size a) :: smp \/
+     (smp' = [(a_time a, a_size a)] /\ forall t v, In (t, v) smp -> t <= a_time a - 1000)) /\
     ((control s' = control s /\ o = None) \/
-     (exists et r, (values_nonneg smp' -> forall x, et = Some x -> 0 <= x <= 8000 * vsum_all smp') /\
+     (exists et r, et = rate_spec 1000 8000 smp' (a_time a) /\
+                   (values_nonneg smp' -> forall x, et = Some x -> 0 <= x <= 8000 * vsum_all smp') /\
                    update (control s) (a_verdict a) et (a_time a) (a_fl a) = Ok (control s', r) /\
                    o = est_out s' r)).
 Proof.
-  intros (HI & HW & HS & HA) Hle. unfold rbe_add. set (now := a_time a) in *.
+  intros (HI & HW & HS & HA & HF) Hle. unfold rbe_add. set (now := a_time a) in *.
   destruct (rate_ok' (incoming s) smp last now HI Hle) as (r1 & E1 & I1 & W1 & S1). rewrite E1.
   (* reset or not *)
   set (x := rate_spec (window_size (incoming s)) (scale (incoming s)) smp now).
@@ -109,14 +137,27 @@ Proof.
              | Some _ => (r1, true)
              | None => if incoming_init s then (reset r1, false) else (r1, incoming_init s)
              end) = (r2, ii) /\ Inv r2 smp2 (Some now) /\ window_size r2 = 1000 /\ scale r2 = 8000 /\
-            (values_nonneg smp -> values_nonneg smp2 /\ vsum_all smp2 <= vsum_all smp)).
-  { destruct x; [exists r1, true, smp; repeat split; auto; try congruence; lia|].
-    destruct (incoming_init s).
-    - exists (reset r1), false, []. split; [reflexivity|]. split; [eapply Inv_reset; exact I1|].
-      cbn [reset window_size scale]. repeat split; try congruence; [intros t v []|].
-      unfold vsum_all at 1. cbn [vsum]. apply vsum_nonneg. assumption.
-    - exists r1, false, smp. repeat split; auto; try congruence; lia. }
-  destruct H2 as (r2 & ii & smp2 & -> & I2 & W2 & S2 & V2).
+            (values_nonneg smp -> values_nonneg smp2 /\ vsum_all smp2 <= vsum_all smp) /\
+            (smp2 = smp \/ (smp2 = [] /\ forall t v, In (t, v) smp -> t <= now - 1000)) /\
+            (ii = true -> exists f, oldest smp2 = Some f /\ f < now)).
+  { destruct x as [y|] eqn:Ex.
+    - exists r1, true, smp. repeat split; auto; try congruence; try lia.
+      intros _. unfold x in Ex. rewrite HW in Ex. apply (rate_spec_some_old 1000 _ _ _ _ ltac:(lia) Ex).
+    - destruct (incoming_init s) eqn:Ei.
+      + exists (reset r1), false, []. split; [reflexivity|]. split; [eapply Inv_reset; exact I1|].
+        cbn [reset window_size scale]. split; [congruence|]. split; [congruence|].
+        split; [|split; [|discriminate]].
+        * intros Hv. split; [intros t v []|]. unfold vsum_all at 1. cbn [vsum]. apply vsum_nonneg. assumption.
+        * right. split; [reflexivity|].
+          destruct (HF Ei) as [->|(f & l & Hf & -> & Hfl)]; [intros t v []|].
+          cbn [le_opt] in Hle. intros t v Hin.
+          pose proof (Inv_samples_le r1 smp now I1 t v Hin) as Htl.
+          unfold x in Ex. rewrite HW in Ex.
+          pose proof (rate_spec_none_empty 1000 _ smp now f Hf ltac:(lia) ltac:(lia) Ex t v Hin) as Hw0.
+          unfold in_window in Hw0. destruct (Z.ltb_spec (now - 1000) t); [|lia].
+          destruct (Z.leb_spec t now); [discriminate|lia].
+      + exists r1, false, smp. repeat split; auto; try congruence; try lia; try discriminate. }
+  destruct H2 as (r2 & ii & smp2 & -> & I2 & W2 & S2 & V2 & Sh2 & F2).
   destruct (add_ok r2 smp2 (Some now) (a_size a) now I2 (Z.le_refl _)) as (r3 & E3 & I3 & W3 & S3).
   rewrite E3.
   set (smp3 := (now, a_size a) :: smp2) in *.
@@ -125,6 +166,12 @@ Proof.
   { intros Hv Hs. destruct (V2 Hv) as [V2a V2b]. split.
     - intros t v [Hin|Hin]; [injection Hin as <- <-; exact Hs|]. now apply (V2a t v).
     - unfold smp3, vsum_all in *. cbn [vsum fst snd]. lia. }
+  assert (Sh3 : smp3 = (now, a_size a) :: smp \/
+               (smp3 = [(now, a_size a)] /\ forall t v, In (t, v) smp -> t <= now - 1000)).
+  { unfold smp3. destruct Sh2 as [->|[-> Hold]]; [now left|right; auto]. }
+  assert (F3 : forall st c lu ss, init_flag_ok (mkRbe st ii c lu ss) smp3 (Some now)).
+  { intros st c lu ss. unfold init_flag_ok; cbn [incoming_init]. intros Hii. right.
+    destruct (F2 Hii) as (f & Hf & Hlt). exists f, now. unfold smp3. rewrite oldest_cons, Hf. auto. }
   destruct (match last_update s with
             | Some lu => (feedback_interval <? now - lu) || is_over (a_verdict a)
             | None => true
@@ -139,16 +186,21 @@ Proof.
       - exact (rate_spec_le _ 8000 _ _ _ ltac:(lia) Hv Hy). }
     destruct r as [target|].
     + eexists; exists (Some (target, lastn 255 (keys (dict_set (ssrcs s) (a_ssrc a) now)))), smp3.
-      split; [reflexivity|]. split; [|split; [apply keys_dict_set|split; [exact V3|]]].
-      * unfold RInv0; cbn [incoming control]. split; [exact I4|]. split; [congruence|]. split; [congruence|exact HA'].
-      * right. exists et, (Some target). cbn [control est_out ssrcs]. auto.
+      split; [reflexivity|]. split; [|split; [apply keys_dict_set|split; [exact V3|split; [exact Sh3|]]]].
+      * unfold RInv0; cbn [incoming control]. split; [exact I4|]. split; [congruence|]. split; [congruence|].
+        split; [exact HA'|apply F3].
+      * right. exists et, (Some target). cbn [control est_out ssrcs].
+        split; [unfold et; rewrite W3, W2, S3, S2; reflexivity|auto].
     + eexists; exists None, smp3.
-      split; [reflexivity|]. split; [|split; [apply keys_dict_set|split; [exact V3|]]].
-      * unfold RInv0; cbn [incoming control]. split; [exact I4|]. split; [congruence|]. split; [congruence|exact HA'].
-      * right. exists et, None. cbn [control est_out]. auto.
+      split; [reflexivity|]. split; [|split; [apply keys_dict_set|split; [exact V3|split; [exact Sh3|]]]].
+      * unfold RInv0; cbn [incoming control]. split; [exact I4|]. split; [congruence|]. split; [congruence|].
+        split; [exact HA'|apply F3].
+      * right. exists et, None. cbn [control est_out].
+        split; [unfold et; rewrite W3, W2, S3, S2; reflexivity|auto].
   - eexists; exists None, smp3.
-    split; [reflexivity|]. split; [|split; [apply keys_dict_set|split; [exact V3|]]].
-    + unfold RInv0; cbn [incoming control]. split; [exact I3|]. split; [congruence|]. split; [congruence|exact HA].
+    split; [reflexivity|]. split; [|split; [apply keys_dict_set|split; [exact V3|split; [exact Sh3|]]]].
+    + unfold RInv0; cbn [incoming control]. split; [exact I3|]. split; [congruence|]. split; [congruence|].
+      split; [exact HA|apply F3].
     + left. cbn [control]. auto.
 Qed.
 
@@ -231,7 +283,7 @@ Proof.
   assert (Hm' : nondecreasing (ocons (Some (a_time a)) (map a_time l))).
   { destruct last as [t|]; cbn [ocons map] in Hm |- *; [apply nondecreasing_cons in Hm|]; exact Hm. }
   apply Forall_cons_iff in Hsz. destruct Hsz as [Hs0 Hsz'].
-  destruct (rbe_add_ok s smp last a H0 Hle) as (s1 & o & smp1 & E & H01 & Hk1 & Hv1 & Hc).
+  destruct (rbe_add_ok s smp last a H0 Hle) as (s1 & o & smp1 & E & H01 & Hk1 & Hv1 & _ & Hc).
   cbn [fl_admissible] in Hfl. rewrite E in *. destruct Hfl as [Hfl1 Hfl].
   destruct (Hv1 Hv Hs0) as [Hv1' _]. clear Hv1. rename Hv1' into Hv1.
   (* the controller invariant holds at some time <= now *)
@@ -239,7 +291,7 @@ Proof.
   { destruct last as [t|]; [exists t; split; [exact Hle|exact HA]|].
     exists (a_time a). split; [lia|]. rewrite HA. apply AInv_init. }
   destruct HAt as (t & Ht & HAt).
-  destruct Hc as [[Ec ->]|(et & r & Het & Eu & ->)].
+  destruct Hc as [[Ec ->]|(et & r & _ & Het & Eu & ->)].
   - apply (IH s1 smp1 (Some (a_time a))); try assumption.
     split; [exact H01|]. split; [exact Hv1|]. rewrite Ec.
     split; [eapply AInv_mono; eauto|]. split; [exact Hp|]. rewrite Hk1, Hk. reflexivity.
